@@ -298,3 +298,39 @@ prop("C16",
      technique="bounded-exhaustive enumeration of names, argument labels, argument lists and sibling sets on the real comparators and EntryTree::sort_by_attr; total-preorder axioms on all triples; reference key order",
      text="natural_cmp is compared with a token-list reference on every pair and checked for reflexivity, antisymmetry and transitivity on all triples; the runtime-argument comparator must equal exact value order on numeric labels and natural order on identifiers and be a total preorder on all triples over the whole alphabet (failures are turned into concrete 24-element lists sorted by the real tree code); all short argument lists and all small sibling sets are sorted through the real tree for the 3 attributes x 2 directions and compared with the reference order, as permutations with original argument indices, and --sortr with the exact reverse.",
      note="Trusted: hook wrappers natural_cmp / cmp_arg_names / tree (src/verif.rs) and the references in harness/mc-seq/src/bin/c16.rs.", engine="S")
+
+
+prop("C18",
+     quick=[{"engine": "S", "bin": "c18"}],
+     thorough=[{"engine": "S", "bin": "c18", "timeout": 3000}],
+     assumptions=[
+         "u128 is not enumerable: every picosecond value below 2 us (5 us thorough), windows m*U/1000 + [-2,2] for m <= 12000 (60000) around every unit U, 10^k and 2^k +-1 up to the top of the range, day counts around 10^4",
+         "byte sizes and throughputs: the statement allows double-precision rounding, so a rendering is accepted when it is the reference rendering of a real within 1e-9 (relative) of the exact rational; values with five or more integer digits accept any integer in that interval",
+         "default precision (4 significant digits), the only one the table uses; widths 0, 8, 14",
+     ],
+     technique="bounded-exhaustive enumeration of picosecond values / counts x durations / byte sizes on the real Display implementations against an exact integer / rational reference",
+     text="Every enumerated picosecond value is formatted by the real FineDuration Display and compared with the statement computed in integer arithmetic (unit = largest not exceeding the value, sub-ns in ns, truncation to max(0, 4-d) decimals, no trailing zeros, integer digits kept); throughputs for all counter kinds and both byte formats and byte sizes are compared with an exact rational reference (256-bit arithmetic) including 0 and inf cases; no formatter may panic.",
+     note="Trusted: hook wrappers fmt_duration / fmt_throughput / fmt_bytes and the reference in harness/mc-seq/src/bin/c18.rs.", engine="S")
+
+prop("C13",
+     quick=[{"engine": "S", "bin": "c13", "parts": 8}],
+     thorough=[{"engine": "S", "bin": "c13", "parts": 16, "timeout": 3000}],
+     assumptions=[
+         "filter alphabet of 10 (5 regex incl. anchors and alternation, 5 exact incl. inner-node and non-path strings); operation sequences up to depth 4 over 8 filters (depth 5 over 10 thorough), every insertion order; 77 candidate paths",
+         "regular-expression matching in the reference uses the same regex-lite engine: the property is about selection logic, not about the regex engine",
+         "trees: every subset of <= 4 (5) of 8 items (benches, args benches, group with custom display name, nested modules) x every filter set of <= 2 (3) filters; end-to-end selection through the CLI is covered by engine Z",
+     ],
+     technique="explicit-state enumeration of FilterSet operation histories with invariant check on every state; bounded-exhaustive enumeration of (tree, filter set) on the real EntryTree::retain against a per-case reference selection",
+     text="Every include/exclude history up to the depth is replayed into the real FilterSet (with and without reserve_exact) and is_match is compared with the rule for every path of the alphabet; every small tree x filter set is pushed through the real tree construction + retain and the retained leaves, arguments and parent nodes are compared with the per-case reference.",
+     note="Trusted: hook wrappers Filters / tree and the references in harness/mc-seq/src/bin/c13.rs.", engine="S")
+
+prop("C15",
+     quick=[{"engine": "S", "bin": "c15"}],
+     thorough=[{"engine": "S", "bin": "c15"}],
+     assumptions=[
+         "pairwise-exhaustive over the 11 option fields x 5 levels (interference among three or more fields at once only for single-level triples in thorough); 2^55 full assignments are not enumerable",
+         "function level: BenchOptions::overwrite folded the way run_tree / run_bench_entry fold it; CLI flag vs environment vs builder and the ignore flags are decided end-to-end by engine Z (not yet built in this round)",
+     ],
+     technique="bounded-exhaustive (pairwise) enumeration of option assignments over levels on the real BenchOptions::overwrite; Bencher::counter sequences through the real loop; thread-list normalisation",
+     text="For every pair of option fields and every pattern of levels setting them, the options are folded with the real overwrite exactly as the runner descends the tree and every field must equal the first value in priority order runner > benchmark > inner > mid > outer group, independently of the other field; Bencher::counter sequences against all inherited-counter patterns must replace only their own kind; thread lists normalise to sorted, de-duplicated lists.",
+     note="Trusted: hook wrappers options_overwrite / counter_set_get / counter_set_insert and the fold order replicated in harness/mc-seq/src/bin/c15.rs.", engine="S")
